@@ -199,16 +199,38 @@ func runC14(cs CaseSpec) *CaseResult {
 	defer nw.Close()
 	rng := cs.rng("c14")
 	n := len(nw.Genesis)
-	byz := nw.Nodes[n-1]
-	byz.Silent = true
-	lag := nw.Nodes[0]
-	fresh := sc.freshVictim(n - 2)
+	var byz, lag, fresh *SimNode
+	resetIdx := 1
+	if n >= 4 {
+		byz = nw.Nodes[n-1]
+		byz.Silent = true
+		lag = nw.Nodes[0]
+		fresh = sc.freshVictim(n - 2)
+	} else {
+		// a network that started with one or two validators and grew through joins:
+		// a node that lost its data only knows the (tiny) genesis set
+		real := nw.babblers()
+		if len(real) < 3 {
+			res.inconclusive(fmt.Sprintf("the network did not grow (only %d nodes)", len(real)))
+			return res
+		}
+		byz = real[len(real)-1]
+		byz.Silent = true
+		lag = real[0]
+		fresh = sc.freshVictim(real[len(real)-2].Idx)
+		resetIdx = real[1].Idx
+		res.count("forgery_victims_that_only_know_a_tiny_genesis_set", 1)
+	}
 	victims := []*SimNode{lag}
 	if fresh != nil {
 		victims = append(victims, fresh)
+		if n < 4 {
+			// the point of these cases
+			victims = append(victims, fresh, fresh)
+		}
 	}
 	if len(sc.triples) > 0 {
-		resetV := nw.Nodes[1]
+		resetV := nw.Nodes[resetIdx]
 		if err, _, _ := applyToCore(resetV, sc.triples[len(sc.triples)-1]); err == nil {
 			resetV.ResetEpochs++
 			victims = append(victims, resetV)
@@ -397,6 +419,13 @@ func init() {
 				if i%3 == 1 {
 					cs[i].P["collide"] = int64(1 + i%4)
 				}
+			}
+			tiny := 6
+			if tier == "thorough" {
+				tiny = 60
+			}
+			for j := 0; j < tiny; j++ {
+				cs = append(cs, CaseSpec{Kind: "ff", P: map[string]int64{"n": int64(1 + j%2), "joins": int64(2 + j%2), "steps": int64(260 + 40*(j%3)), "attempts": 40}})
 			}
 			return cs
 		},
